@@ -643,6 +643,28 @@ fn unexpected_code() -> u64 {
     vm_error_code("Unexpected")
 }
 
+/// keep at most three violations per known class and transaction (the rest is only counted)
+fn compact(t: &mut TxOut) {
+    let mut kept: BTreeMap<String, u32> = BTreeMap::new();
+    let mut dropped: BTreeMap<String, u64> = BTreeMap::new();
+    t.viol.retain(|v| match &v.signature {
+        None => true,
+        Some(s) => {
+            let k = kept.entry(s.clone()).or_default();
+            *k += 1;
+            if *k > 3 {
+                *dropped.entry(s.clone()).or_default() += 1;
+                false
+            } else {
+                true
+            }
+        }
+    });
+    for (s, n) in dropped {
+        *t.stats.entry(format!("known_class_more:{s}")).or_default() += n;
+    }
+}
+
 fn process_tx(spec: &TxSpec, cons: &Arc<ckb_chain_spec::consensus::Consensus>, rt: &tokio::runtime::Runtime, mut rng: Rng, thorough: bool) -> TxOut {
     let mut t = TxOut::default();
     macro_rules! bump {
@@ -650,6 +672,19 @@ fn process_tx(spec: &TxSpec, cons: &Arc<ckb_chain_spec::consensus::Consensus>, r
             *t.stats.entry($k.to_string()).or_default() += 1
         };
     }
+    // Coq cases: the 16 shards hold ~6 MB in total; in the thorough tier keep a
+    // thinned sample per transaction instead of buffering hundreds of thousands
+    let case_budget: usize = if thorough { 20_000 } else { usize::MAX };
+    let mut case_bytes = 0usize;
+    let mut case_seen = 0u64;
+    let mut keep_case = move |len: usize| -> bool {
+        case_seen += 1;
+        if case_bytes + len > case_budget || (case_budget != usize::MAX && case_seen % 7 != 0 && case_seen > 40) {
+            return false;
+        }
+        case_bytes += len;
+        true
+    };
     let n_part = if thorough { 400 } else { 22 };
     let cap = if thorough { 4000 } else { 400 };
     let cx = Ctx::new(spec, cons);
@@ -720,7 +755,9 @@ fn process_tx(spec: &TxSpec, cons: &Arc<ckb_chain_spec::consensus::Consensus>, r
         if let Some(msg) = check_budget(&w, max, &r) {
             t.viol.push(Violation { what: format!("{name}: verify({max}): {msg}"), detail: mk_detail(runj.clone()), signature: None });
         }
-        t.cases.push((format!("mkCase {} (RVerify {} {})", cg, coq_n(max as u128), coq_res(&r)), mk_detail(runj)));
+        if keep_case(200) {
+            t.cases.push((format!("mkCase {} (RVerify {} {})", cg, coq_n(max as u128), coq_res(&r)), mk_detail(runj)));
+        }
     }
 
     // ---- chunk partitions ------------------------------------------------
@@ -770,6 +807,9 @@ fn process_tx(spec: &TxSpec, cons: &Arc<ckb_chain_spec::consensus::Consensus>, r
         }
     }
     for (si, (strat, skip_pause)) in strats.iter().enumerate() {
+        if si % 16 == 0 {
+            compact(&mut t);
+        }
         let mut r2 = rng.fork();
         let mut lim = limiter(strat, &mut r2);
         let run = run_chunks(&cx, *skip_pause, &mut lim, cap);
@@ -810,7 +850,7 @@ fn process_tx(spec: &TxSpec, cons: &Arc<ckb_chain_spec::consensus::Consensus>, r
                 break;
             }
         }
-        if run.limits.len() <= 20 && *skip_pause {
+        if run.limits.len() <= 20 && *skip_pause && keep_case(200 + 90 * run.limits.len()) {
             let mut d = mk_detail(runj.clone());
             if let Some(sg) = chunk_sig {
                 d["known_signature"] = json!(sg);
@@ -862,7 +902,7 @@ fn process_tx(spec: &TxSpec, cons: &Arc<ckb_chain_spec::consensus::Consensus>, r
                     }
                     t.viol.push(Violation { what: format!("{name}: complete(state after {k} chunks [{} cycles consumed], {max}): {msg}", consumed), detail: mk_detail(runj.clone()), signature: sig });
                 }
-                if pre.len() <= 20 && *skip_pause {
+                if pre.len() <= 20 && *skip_pause && keep_case(200 + 90 * pre.len()) {
                     let mut d = mk_detail(runj);
                     if io {
                         d["known_signature"] = json!(SIG_IO);
@@ -920,6 +960,7 @@ fn process_tx(spec: &TxSpec, cons: &Arc<ckb_chain_spec::consensus::Consensus>, r
             }
         }
     }
+    compact(&mut t);
     t
 }
 
@@ -1019,6 +1060,11 @@ fn main() {
     for v in &viol {
         if let Some(s) = &v.signature {
             *known_counts.entry(s.clone()).or_default() += 1;
+        }
+    }
+    for (k, n) in &stats {
+        if let Some(s) = k.strip_prefix("known_class_more:") {
+            *known_counts.entry(s.to_string()).or_default() += n;
         }
     }
     // one representative per known class is enough for the report
